@@ -43,7 +43,7 @@ static int nin;
 static MPT_STRUCT(notify) no = MPT_NOTIFY_INIT;
 static MPT_STRUCT(socket) bound = MPT_SOCKET_INIT;
 static char dir[128], bpath[160];
-static int pathno;
+static int pathno, stdin_gone;
 static unsigned char base_open[MAXFD]; /* open before the behaviour began */
 /* pending clients: descriptor and the listener (token, 0 = bound socket) they connected to */
 static struct { int fd, l; char path[160]; } cli[MAXTOK];
@@ -375,6 +375,8 @@ static void drv_step(struct cmd *c)
 		MPT_INTERFACE(input) *in = 0;
 		int r = -9;
 		if (bound._id >= 0) {
+			/* environment: the lowest descriptor number is free (a process started without standard input) */
+			if (drv_int(c, "low", 0) && !stdin_gone) { stdin_gone = 1; base_open[0] = 0; own_close(0); }
 			in = mpt_accept(&bound);
 			if (in) {
 				r = mpt_notify_add(&no, POLLIN, in);
@@ -383,6 +385,21 @@ static void drv_step(struct cmd *c)
 			}
 		}
 		emit(c, in && r >= 0 ? "ok" : "refused", r);
+	}
+	else if (!strcmp(a, "unbind")) {
+		/* the same handle may be released again: bound._id is whatever the library left there */
+		int r = mpt_bind(&bound, 0, 0, 0);
+		emit(c, r < 0 ? "refused" : "ok", r);
+	}
+	else if (!strcmp(a, "keepread")) {
+		/* the stream of a library stream input (layout of mptio/stream/stream_input.c) keeps its descriptor for reading only */
+		struct { MPT_INTERFACE(input) _in; MPT_STRUCT(refcount) ref; MPT_STRUCT(stream) data; } *srm;
+		int i = (int) drv_int(c, "i", 0), r = -9;
+		if (i >= 1 && i <= nin && !tab[i].released && tab[i].in && (tab[i].kind == 'c' || tab[i].kind == 'a' || tab[i].kind == 'n')) {
+			srm = (void *) tab[i].in;
+			r = _mpt_stream_setfile(&srm->data._info, tab[i].fd, -1);
+		}
+		emit(c, r < 0 ? "refused" : "ok", r);
 	}
 	else if (!strcmp(a, "send")) {
 		int i = (int) drv_int(c, "i", 0), r = -9;
